@@ -118,20 +118,24 @@ def reader_product(work, unis=(False, True), eols=('lf', 'crlf', 'cr'), others=T
     hpo = hpotk.load_minimal_ontology(p0)
     out = []
     for rname, (mk, fn) in readers(hpo).items():
-        for uni, eol in [(u, e) for u in unis for e in eols]:
-            text = mk(uni).replace('\n', EOLS[eol])
+        variants = [(u, e) for u in unis for e in eols] + ([('bom', 'lf')] if len(eols) > 1 else [])
+        for uni, eol in variants:
+            # 'bom': the content starts with a UTF-8 byte order mark - whatever a reader makes of it (the JSON loaders
+            # reject it), it must make the same of it for every kind of source
+            text = ('\ufeff' + mk(False) if uni == 'bom' else mk(uni)).replace('\n', EOLS[eol])
             srcs = sources(work, 'r', text)
             ref = None
             for kind, factory in srcs:
                 rec = {'reader': rname, 'kind': kind, 'non_ascii': uni, 'eol': eol}
                 try:
-                    rec['result'] = fn(factory())
+                    outcome = ['ok', fn(factory())]
                 except Exception as e:
+                    outcome = ['err', exn_name(e)]
                     rec['err'] = exn_name(e) + ': ' + str(e)[:120]
                 if kind == 'path':
-                    ref = rec.get('result')
-                rec['same_as_path'] = ('result' in rec and rec['result'] == ref)
-                rec.pop('result', None)
+                    ref = outcome
+                    rec['path_outcome'] = outcome[0]
+                rec['same_as_path'] = (outcome == ref)
                 out.append(rec)
         OTHERS['pathlib.Path'] = pathlib.Path(p0)
         for oname, o in (OTHERS.items() if others else ()):
